@@ -412,7 +412,7 @@ def describe(case):
          3: lambda: "time(%d s%s, clock starts at %d)" % (trig[1], ", modulate" if trig[2] else "", trig[3])}[trig[0]]()
     r = "delete" if roller[0] == 0 else "fixed_window(base=%d,count=%d%s%s%s)" % (
         roller[1], roller[2], ",gz" if roller[3] else "",
-        ["", ",index in directory and file name", ",index in directory only"][roller[4]] if len(roller) > 4 else "",
+        ["", ",index in directory and file name", ",index in directory only", ",archives on another file system"][roller[4]] if len(roller) > 4 else "",
         ",background_rotation build" if bg_of(roller) else "")
 
     def opd(o):
